@@ -56,6 +56,8 @@ pub struct Sim {
     /// sessions whose transaction was aborted by VACUUM (by design): their statements may fail
     /// or succeed, but nothing they write may ever become visible
     pub zombies: std::collections::BTreeSet<u32>,
+    /// C11: audit page ownership of the whole file at quiescent points
+    pub page_audit: bool,
 }
 
 fn outcome_line(o: &Out) -> String {
@@ -70,7 +72,7 @@ impl Sim {
         let eng = Eng::create(dir, cfg)?;
         let mut stats = RunStats::default();
         stats.fingerprint = 0xcbf29ce484222325;
-        Ok(Sim { eng, model: Model::new(), txmap: BTreeMap::new(), stats, began_at: BTreeMap::new(), commits_seen: 0, allow_oom: false, allow_d26: false, halted: false, zombies: Default::default() })
+        Ok(Sim { eng, model: Model::new(), txmap: BTreeMap::new(), stats, began_at: BTreeMap::new(), commits_seen: 0, allow_oom: false, allow_d26: false, halted: false, zombies: Default::default(), page_audit: false })
     }
 
     fn viol(&self, oracle: &str, i: usize, detail: String) -> Violation {
@@ -427,6 +429,69 @@ impl Sim {
         }
     }
 
+    /// C11: every page of the file except page zero is a node of exactly one tree, a link of
+    /// exactly one overflow chain referenced by one leaf cell, or a member of the free list.
+    fn audit_pages(&mut self, i: usize) -> Result<(), Violation> {
+        let d = axmosdb::verif::facade::dbpages::dump(self.eng.db());
+        self.stats.bump("page_audits");
+        if let Some(e) = &d.error {
+            return Err(self.viol("O-pages", i, format!("page graph walk failed: {e}")));
+        }
+        let mut owner: BTreeMap<u64, String> = BTreeMap::new();
+        let mut claim = |p: u64, who: String| -> Result<(), String> {
+            if p == 0 || p >= d.total_pages {
+                return Err(format!("{who} refers to page {p} outside the file (total_pages {})", d.total_pages));
+            }
+            if let Some(prev) = owner.insert(p, who.clone()) {
+                return Err(format!("page {p} has two owners: {prev} and {who}"));
+            }
+            Ok(())
+        };
+        let mut res: Result<(), String> = Ok(());
+        'outer: for t in &d.trees {
+            for n in &t.nodes {
+                if let Err(e) = claim(*n, format!("node of {}", t.name)) {
+                    res = Err(e);
+                    break 'outer;
+                }
+            }
+            for (pg, ci, chain) in &t.leaf_chains {
+                for o in chain {
+                    if let Err(e) = claim(*o, format!("overflow chain of {} page {pg} cell {ci}", t.name)) {
+                        res = Err(e);
+                        break 'outer;
+                    }
+                }
+            }
+        }
+        if res.is_ok() {
+            for (n, f) in d.free_list.iter().enumerate() {
+                if let Err(e) = claim(*f, format!("free list entry #{n}")) {
+                    res = Err(e);
+                    break;
+                }
+            }
+        }
+        if res.is_ok() {
+            if d.free_list.first().copied() != d.free_head || d.free_list.last().copied() != d.free_tail {
+                res = Err(format!("free list recorded head/tail {:?}/{:?} but the list runs {:?}..{:?}", d.free_head, d.free_tail, d.free_list.first(), d.free_list.last()));
+            }
+        }
+        if res.is_ok() {
+            for p in 1..d.total_pages {
+                if !owner.contains_key(&p) {
+                    res = Err(format!("page {p} of {} has no owner: not in any tree, not in an overflow chain, not on the free list (leaked)", d.total_pages));
+                    break;
+                }
+            }
+        }
+        self.stats.add("pages_audited", d.total_pages);
+        if !d.free_list.is_empty() {
+            self.stats.bump("audits_with_nonempty_free_list");
+        }
+        res.map_err(|e| self.viol("O-pages", i, e))
+    }
+
     /// C06: one logical query in several spellings that force different plans.
     fn probe(&mut self, i: usize, pr: &Probe) -> Result<(), Violation> {
         let tx = self.model.begin();
@@ -563,6 +628,9 @@ impl Sim {
         }
         let d = self.model.digest();
         self.stats.log(format!("{i} CHECK ok digest={d:016x}"));
+        if self.page_audit && self.txmap.is_empty() {
+            self.audit_pages(i)?;
+        }
         Ok(())
     }
 
